@@ -320,6 +320,10 @@ def run_property(pid, tier, replay=None):
         pool.shutdown(wait=False, cancel_futures=True)
         print(f'FRAMEWORK ERROR in {pid}:\n{e}', file=sys.stderr)
         return 2
+    except Exception:
+        pool.shutdown(wait=False, cancel_futures=True)
+        print(f'FRAMEWORK ERROR in {pid} (driver):\n{traceback.format_exc()}', file=sys.stderr)
+        return 2
     finally:
         pool.shutdown(wait=False, cancel_futures=True)
 
